@@ -176,6 +176,7 @@ def _(ex, a):
 def _(ex, a):
     l = ex.deref(a[0])
     ex.lock_acquire(l, 'r')
+    ex.cur.held.append((l, 'r'))
     g = Agg('RwReadGuard', [a[0]], x=ex.cur.id)
     return Err(Agg('PoisonError', [g])) if l.x['poisoned'] else Ok(g)
 
@@ -184,6 +185,7 @@ def _(ex, a):
 def _(ex, a):
     l = ex.deref(a[0])
     ex.lock_acquire(l, 'w')
+    ex.cur.held.append((l, 'w'))
     g = Agg('RwWriteGuard', [a[0]], x=ex.cur.id)
     return Err(Agg('PoisonError', [g])) if l.x['poisoned'] else Ok(g)
 
@@ -206,14 +208,24 @@ def _(ex, a):
     return Ok(Agg('RwWriteGuard', [a[0]], x=ex.cur.id))
 
 
+def _unheld(ex, l, mode, tid):
+    for t in ([ex.cur] + (ex.threads.threads if ex.threads is not None else [])):
+        if t.id == tid and (l, mode) in t.held:
+            t.held.remove((l, mode))
+            return
+
+
 def _drop_rguard(ex, v):
-    ex.lock_release(ex.deref(v.f[0]), 'r', v.x)
+    l = ex.deref(v.f[0])
+    _unheld(ex, l, 'r', v.x)
+    ex.lock_release(l, 'r', v.x)
 
 
 def _drop_wguard(ex, v):
     l = ex.deref(v.f[0])
     if getattr(ex, 'panicking', False):
         l.x['poisoned'] = True
+    _unheld(ex, l, 'w', v.x)
     ex.lock_release(l, 'w', v.x)
 
 
